@@ -535,3 +535,24 @@ Proof.
   - reflexivity.
 Qed.
 End JoinRepExample.
+
+(* ---- the leaf structures the merged structure stands for ---- *)
+Definition leaves_of (a : nat) (sa : list nat) : list nat := match sa with [] => [a] | _ => sa end.
+
+Lemma fold_snoc_app (l acc : list nat) : fold_left (fun l s => l ++ [s]) l acc = acc ++ l.
+Proof.
+  revert acc. induction l as [|x r IH]; intros acc; simpl; [rewrite app_nil_r; reflexivity|].
+  rewrite IH, <- app_assoc. reflexivity.
+Qed.
+
+Theorem join_structs_src_is_leaves a b sa sb :
+  join_structs_src a b sa sb = leaves_of a sa ++ leaves_of b sb.
+Proof.
+  unfold join_structs_src, leaves_of. rewrite !fold_snoc_app.
+  destruct sa as [|x r]; destruct sb as [|y t]; reflexivity.
+Qed.
+
+Example join_structs_src_nonvacuous : join_structs_src 1 2 [] [5; 6]%nat = [1; 5; 6]%nat.
+Proof. reflexivity. Qed.
+
+Print Assumptions join_structs_src_is_leaves.
